@@ -31,11 +31,12 @@ def gen_para_text(rng, nwords=None, tags=True, atoms=True, newlines=True, hard=T
             elif r < 0.85 and hard:
                 s += "  \n"
             elif r < 0.86 and hard:
-                s += rng.choice(["\\\n\\\n", "  \n\\\n", "\\\n  \\\n\\\n"])      # consecutive hard breaks: empty segments
+                # consecutive hard breaks: empty segments; a literal (escaped) backslash directly before the break's own backslash
+                s += rng.choice(["\\\n\\\n", "  \n\\\n", "\\\n  \\\n\\\n", "\\\\\\\n", "x\\\\\\\n"])
             elif r < 0.88 and tags:
                 s += ""          # adjacency
             elif r < 0.9:
-                s += "\t"
+                s += rng.choice(["\t", "\t", "\u00a0", "\u2003", "\u3000", "\x0c", "\x1f", "\u2028"])      # every kind of whitespace separates words
             elif r < 0.92 and newlines:
                 s += " \n"
             else:
